@@ -32,6 +32,7 @@ type Trace struct {
 	hist    map[string]int
 	samples []string
 	nq, nf  int
+	sigs    map[string]int
 }
 
 // Open creates the trace named by VERIF_OUT (stdout if unset).
@@ -71,7 +72,14 @@ func (t *Trace) Qf(out string, format string, args ...any) {
 // sig must be stable for "the same defect" and differ between different defects.
 func (t *Trace) Fail(sig, desc string) {
 	t.nf++
-	if t.nf > 200 { // keep traces bounded; the count is still reported
+	// keep traces bounded, but per signature: many instances of one (possibly known)
+	// finding must never crowd out a different failing input; counts are still reported
+	if t.sigs == nil {
+		t.sigs = map[string]int{}
+	}
+	t.sigs[sig]++
+	if t.sigs[sig] > 12 || len(t.sigs) > 400 {
+		t.hist["F-suppressed:"+sig]++
 		return
 	}
 	fmt.Fprintf(t.w, "F\t%s\t%s\n", clean(sig), clean(desc))
